@@ -368,15 +368,27 @@ fn rand_select(rng: &mut Rng, depth: usize) -> MSelect {
     }
     if rng.chance(1, 3) {
         let cols: Vec<String> = COLS.iter().map(|c| c.to_string()).collect();
-        s.cond = Some(rand_cond(rng, &cols));
+        s.cond = rand_where(rng, &cols);
     }
     s
+}
+
+/// A WHERE condition; one in three is a top-level conjunction (given to the library as two `with()` calls
+/// for every second shape, see `model::split_and`).
+fn rand_where(rng: &mut Rng, cols: &[String]) -> Option<MExpr> {
+    if rng.chance(1, 4) {
+        None
+    } else if rng.chance(1, 3) {
+        Some(MExpr::And(Box::new(rand_cond(rng, cols)), Box::new(rand_cond(rng, cols))))
+    } else {
+        Some(rand_cond(rng, cols))
+    }
 }
 
 fn rand_stmt(rng: &mut Rng) -> MStmt {
     let cols: Vec<String> = COLS.iter().map(|c| c.to_string()).collect();
     match rng.below(6) {
-        0 => MStmt::Delete { table: rng.pick(&TABLES).to_string(), cond: if rng.chance(1, 4) { None } else { Some(rand_cond(rng, &cols)) } },
+        0 => MStmt::Delete { table: rng.pick(&TABLES).to_string(), cond: rand_where(rng, &cols) },
         1 => {
             let n = rng.usize(4);
             let w = 1 + rng.usize(4);
@@ -387,7 +399,7 @@ fn rand_stmt(rng: &mut Rng) -> MStmt {
             MStmt::Update {
                 table: rng.pick(&TABLES).to_string(),
                 sets: (0..n).map(|_| (rng.pick(&COLS).to_string(), rand_lit(rng))).collect(),
-                cond: if rng.chance(1, 4) { None } else { Some(rand_cond(rng, &cols)) },
+                cond: rand_where(rng, &cols),
             }
         }
         _ => {
@@ -409,15 +421,25 @@ fn lower_and_print(s: &MStmt) -> Result<String, crate::panicmon::PanicInfo> {
             for (c, v) in sets {
                 q = q.set(c.clone(), v.to_msi());
             }
-            if let Some(e) = cond {
-                q = q.with(em::lower(e));
+            match crate::model::split_and(cond) {
+                Some((a, b)) => q = q.with(em::lower(a)).with(em::lower(b)),
+                None => {
+                    if let Some(e) = cond {
+                        q = q.with(em::lower(e));
+                    }
+                }
             }
             format!("{}", q)
         }
         MStmt::Delete { table, cond } => {
             let mut q = msi::Delete::from(table.clone());
-            if let Some(e) = cond {
-                q = q.with(em::lower(e));
+            match crate::model::split_and(cond) {
+                Some((a, b)) => q = q.with(em::lower(a)).with(em::lower(b)),
+                None => {
+                    if let Some(e) = cond {
+                        q = q.with(em::lower(e));
+                    }
+                }
             }
             format!("{}", q)
         }
